@@ -335,6 +335,7 @@ type Syncer struct {
 	mu          sync.Mutex
 	peerRemoved sync.Cond // broadcasts when peer is removed from 'peers'
 	peers       map[string]*Peer
+	closing     bool // set by Run's teardown; addPeer refuses new peers once set
 	strikes     map[string]int
 
 	inflightMu     sync.Mutex
@@ -396,6 +397,13 @@ func (s *Syncer) addPeer(p *Peer) error {
 
 	s.mu.Lock()
 	defer s.mu.Unlock()
+	// Run closes the connected peers exactly once when it shuts down; a peer
+	// inserted after that would never be closed and its runPeer would keep
+	// the threadgroup (and therefore Close) waiting for the remote to hang up.
+	if s.closing {
+		p.t.Close()
+		return errors.New("syncer is shutting down")
+	}
 	// allowConnect counted the peers before the handshake; any number of
 	// connections may have passed that check since. Re-check the inbound cap
 	// under the same lock as the insert.
@@ -908,6 +916,7 @@ func (s *Syncer) Run() error {
 	// when one goroutine exits, shutdown and wait for the others
 	s.l.Close()
 	s.mu.Lock()
+	s.closing = true
 	for _, p := range s.peers {
 		p.Close()
 	}
